@@ -116,7 +116,7 @@ def _job(args):
             if r != 'sat':
                 res['error'] = 'vacuity twin %s is %s (the model cannot reach the situations the property is about within D=%d)' % (name, r, D)
         extra = []
-        if rendezvous and v:
+        if rendezvous and v and pid == 'C09':
             # the history of the known finding is split off: it is queried (and replayed) on its own, every other
             # violation of the same clauses is still reported
             pat = pr.marker_lost_before_park()
